@@ -135,7 +135,8 @@ def push_uninit(c):
         r.owner.fields["_x_data"] = e
     k = c.int("k")
     obs = c.pw("obs", od, eshape=r.S)
-    out = c.outcome(r.method("push"), obs, c.bool("inplace"))
+    inplace = c.choice("inplace", [False, True])
+    out = c.outcome(r.method("push"), obs, inplace)
     c.expect_return(out)
     d = r.data
     c.ensure("storage_created", z3.And(d is not None, d.tlen is not None))
@@ -145,6 +146,10 @@ def push_uninit(c):
     if kind == "none":
         # the record had no data type: it adopts the observation's (property statement)
         c.ensure("adopts_dtype", d.dtype == od)
+    else:
+        # typed (empty) storage keeps ITS data type (the write converts the observation, C01 write contract)
+        sd = kind.split("_")[1]
+        c.ensure("typed_storage_keeps_its_dtype", d.dtype == sd)
     c.ensure("newest_is_obs", z3.Implies(newest, r.M1(k) == conv(obs.f, d.dtype)))
     c.ensure("rest_zero", z3.Implies(z3.Not(newest), r.M1(k) == conv(z3.IntVal(0), d.dtype)))
     c.ensure("ptr", num(r.ptr) == smod(z3.IntVal(1), num(N)))
@@ -384,6 +389,7 @@ def defaults(c):
 
 
 MUTANTS = [
+    dict(file=INF, func="RecordTensor.push", old="                dtype=(obs.dtype if self.__data is None else None),", new="                dtype=obs.dtype,", contracts=["RecordTensor.push[uninitialized]"], name="seed C01d: first push overrides the data type of typed empty storage"),
     dict(file=INF, func="RecordTensor.readrange", old="        offset: int | torch.Tensor = 1,\n        forward: bool = False,\n    ) -> torch.Tensor:", new="        offset: int | torch.Tensor = 0,\n        forward: bool = False,\n    ) -> torch.Tensor:", contracts=["RecordTensor.defaults"], name="readrange: default offset changed"),
     dict(file=INF, func="RecordTensor.write", old="def write(self, obs: torch.Tensor, offset: int = 0, inplace: bool = False)", new="def write(self, obs: torch.Tensor, offset: int = 1, inplace: bool = False)", contracts=["RecordTensor.defaults"], name="write: default offset changed"),
     dict(file=_F, func="_unwind_ptr", old="(pointer - int(offset)) % size", new="(pointer + int(offset)) % size", contracts=["RecordTensor.read", "RecordTensor.write"]),
